@@ -384,6 +384,7 @@ public:
                 stable_v = v;
                 return ret_lv;
             }
+            YAKUSHIMA_VERIF_HOOK(YAKUSHIMA_VERIF_RETRY, this);
             v = v_check;
         }
     }
